@@ -123,9 +123,11 @@ theorem addAll_ok_iff (rest acc : List MFunc) :
 
 theorem pipeFuncValidate_ok_iff (f : MFunc) :
     pipeFuncValidate f = .ok () ↔
-      selfNamed f = false ∧ mapspecInputNotParam f = false ∧ mapspecInputBound f = false ∧ mapspecOutputSetDiffers f = false := by
+      selfNamed f = false ∧ mapspecInputNotParam f = false ∧ mapspecInputBound f = false ∧ mapspecOutputSetDiffers f = false ∧
+      mapspecMalformed f = false := by
   unfold pipeFuncValidate
-  cases selfNamed f <;> cases mapspecInputNotParam f <;> cases mapspecInputBound f <;> cases mapspecOutputSetDiffers f <;>
+  cases mapspecMalformed f <;> cases selfNamed f <;> cases mapspecInputNotParam f <;> cases mapspecInputBound f <;>
+    cases mapspecOutputSetDiffers f <;>
     simp [bind, Except.bind, pure, Except.pure, throw, throwThe, MonadExceptOf.throw]
 
 theorem pipelineValidate_ok_iff (gs : List MFunc) :
@@ -316,9 +318,12 @@ theorem check_not_mem_effectSteps (fs : List MFunc) (r : Req) (n : String) (res 
 theorem check_mem_startSteps (fs : List MFunc) (r : Req) (n : String) (res : V Unit) :
     Step.check n res ∈ startSteps fs r ↔
       (n = "executor-without-parallel" ∧ res = checkExecutor r) ∨
+      (n = "output-names" ∧ res = checkOutputNames fs r) ∨
       (n = "complete-inputs" ∧ res = ofMap "complete-inputs" (validateInputs fs r.inputs)) ∨
       (n = "consistent-axes" ∧ res = (if axesConsistent fs then .ok () else .error ⟨.value, "inconsistent-axes"⟩)) ∨
+      (n = "fixed-indices" ∧ res = ofMap "fixed-indices" (PF.Pieces.validateFixed fs (normInputs r.inputs) r.fixed)) ∨
       (n = "storage" ∧ res = checkStorage r) ∨
+      (n = "storage-default" ∧ res = checkStorageDefault fs r) ∨
       (r.folder = true ∧ r.cleanup = false ∧ ∃ p, r.prev = some p ∧ n = "previous-run" ∧ res = comparePrev fs r p) ∨
       (n = "check-inputs" ∧ res = checkInputs fs r) ∨
       (n = "map-shapes" ∧ res = ofMap "map-shapes" (shapesOf fs r.inputs r.internal)) := by
@@ -343,9 +348,43 @@ theorem checkExecutor_refused (r : Req) : Refused (checkExecutor r) ↔ (r.execu
   unfold checkExecutor
   cases r.executor <;> cases r.parallel <;> simp [Refused]
 
-theorem checkStorage_refused (r : Req) : Refused (checkStorage r) ↔ r.storage ∉ storageRegistry := by
+theorem checkStorage_refused (r : Req) : Refused (checkStorage r) ↔ ∃ n ∈ r.storage.names, n ∉ storageRegistry := by
   unfold checkStorage
-  by_cases h : r.storage ∈ storageRegistry <;> simp [Refused, List.contains_iff_mem, h]
+  cases h : r.storage.names.all storageRegistry.contains with
+  | true =>
+    simp only [↓reduceIte, Refused, reduceCtorEq, exists_false, false_iff, not_exists, not_and, Decidable.not_not]
+    intro n hn
+    have := List.all_eq_true.mp h n hn
+    simpa [List.contains_iff_mem] using this
+  | false =>
+    simp only [Bool.false_eq_true, ↓reduceIte, Refused, Except.error.injEq, exists_eq', true_iff]
+    obtain ⟨n, hn, hc⟩ := List.all_eq_false.mp h
+    exact ⟨n, hn, by simpa [List.contains_iff_mem] using hc⟩
+
+theorem checkStorageDefault_refused (fs : List MFunc) (r : Req) :
+    Refused (checkStorageDefault fs r) ↔ ∃ f, f ∈ storageUnresolved fs r.storage := by
+  unfold checkStorageDefault
+  cases h : storageUnresolved fs r.storage with
+  | nil => simp [Refused]
+  | cons g rest => simp only [List.isEmpty_cons, Bool.false_eq_true, ↓reduceIte, Refused, Except.error.injEq, exists_eq', true_iff]; exact ⟨g, List.mem_cons_self⟩
+
+theorem checkOutputNames_refused (fs : List MFunc) (r : Req) :
+    Refused (checkOutputNames fs r) ↔ ∃ ns, r.outputNames = some ns ∧ ∃ n ∈ ns, n ∉ nodeNames fs := by
+  unfold checkOutputNames
+  cases r.outputNames with
+  | none => simp [Refused]
+  | some ns =>
+    simp only [Option.some.injEq, exists_eq_left']
+    cases h : ns.all (nodeNames fs).contains with
+    | true =>
+      simp only [↓reduceIte, Refused, reduceCtorEq, exists_false, false_iff, not_exists, not_and, Decidable.not_not]
+      intro n hn
+      have := List.all_eq_true.mp h n hn
+      simpa [List.contains_iff_mem] using this
+    | false =>
+      simp only [Bool.false_eq_true, ↓reduceIte, Refused, Except.error.injEq, exists_eq', true_iff]
+      obtain ⟨n, hn, hc⟩ := List.all_eq_false.mp h
+      exact ⟨n, hn, by simpa [List.contains_iff_mem] using hc⟩
 
 theorem checkInputs_refused (fs : List MFunc) (r : Req) : Refused (checkInputs fs r) ↔ listForNd fs r.inputs = true := by
   unfold checkInputs
@@ -358,7 +397,7 @@ theorem axesStep_refused (fs : List MFunc) :
 
 theorem headChecks_isCheck (fs : List MFunc) (r : Req) : ∀ s ∈ headChecks fs r, isCheck s = true := by
   intro s hs; simp only [headChecks, List.mem_cons, List.not_mem_nil, or_false] at hs
-  rcases hs with rfl | rfl | rfl | rfl <;> rfl
+  rcases hs with rfl | rfl | rfl | rfl | rfl | rfl | rfl <;> rfl
 
 theorem tailChecks_isCheck (fs : List MFunc) (r : Req) : ∀ s ∈ tailChecks fs r, isCheck s = true := by
   intro s hs; simp only [tailChecks, List.mem_cons, List.not_mem_nil, or_false] at hs
